@@ -9,7 +9,7 @@ import (
 )
 
 var allMethods = []string{"OPTIONS", "GET", "HEAD", "PUT", "DELETE", "MKCOL", "PROPFIND", "PROPPATCH", "COPY", "MOVE", "REPORT",
-	"LOCK", "UNLOCK", "POST", "PATCH", "TRACE", "MKCALENDAR", "ACL", "FOO", "get", "propfind", "report", "Put"}
+	"LOCK", "UNLOCK", "POST", "PATCH", "TRACE", "CONNECT", "MKCALENDAR", "ACL", "FOO", "get", "propfind", "report", "Put"}
 
 var (
 	depthValid    = []string{"0", "1", "infinity"}
@@ -155,6 +155,15 @@ func (g *generator) emit(mk func() *Case) {
 		g.c.Observe("body_shape", cs.Shape, 1)
 	}
 	g.e.run(cs)
+	// Every eleventh case that has no other anomaly is also sent to a
+	// handler whose backend is down (see backdown.go).
+	if i%11 == 7 && cs.Target != "principal" && cs.BodyPad == 0 && cs.fault() == "" && cs.Wire == "" && !cs.Cancelled && cs.Prev == nil {
+		d := *cs
+		d.Fam = "backend-down"
+		d.BackendDown = backendDownModes[(i/11)%len(backendDownModes)]
+		g.c.Observe("backend down", cs.Fam+" | "+d.BackendDown, 1)
+		g.e.run(&d)
+	}
 }
 
 func runAll(c *fw.Ctx) {
@@ -181,6 +190,7 @@ func runAll(c *fw.Ctx) {
 	g.big(xs, ts)
 	g.random(xs, ts)
 	g.chaos(xs, ts, pool)
+	g.repeated()
 }
 
 // matrix: every method x every path x every handler, with no body, with the
@@ -269,6 +279,7 @@ func (g *generator) definite(xs []seedDoc) []Body {
 		bodies = append(bodies, syntaxMutants(sd)...)
 		bodies = append(bodies, wrongRootMutants(sd)...)
 		bodies = append(bodies, semMutants(sd)...)
+		bodies = append(bodies, dateMutants(sd)...)
 		bodies = append(bodies, boundaryMutants(sd)...)
 		bodies = append(bodies, structuralSingles(sd)...)
 		bodies = append(bodies, noRootBodies(sd.Fam)...)
@@ -458,6 +469,14 @@ func (g *generator) headers() {
 				return cs
 			})
 		}
+		// ... and on every REPORT entry point (left open: see questionable)
+		for _, p := range []ep{{"caldav", "", lp{"collection", cal.Coll}}, {"caldav", "", lp{"home-set", cal.Home}}, {"carddav", "", lp{"collection", card.Coll}}, {"carddav", "", lp{"object", card.Obj}}, {"caldav", "/dav", lp{"collection", calLayout("/dav").Coll}}} {
+			d, p := d, p
+			g.emit(func() *Case {
+				return &Case{Fam: "headers", Target: p.target, Prefix: p.prefix, Method: "REPORT", Path: p.Path, Level: p.Level, Depth: d,
+					Body: defaultBody(p.target, "REPORT"), CT: hv("application/xml", "xml")}
+			})
+		}
 	}
 	// COPY / MOVE
 	cmEPs := []ep{{"webdav", "", lp{"file", "/file.txt"}}, {"webdav", "", lp{"dir", "/dir/"}}, {"webdav", "", lp{"missing", "/missing"}}, {"webdav", "", lp{"deeper", "/dir/sub/b.txt"}},
@@ -549,6 +568,57 @@ func (g *generator) headers() {
 					})
 				}
 			}
+		}
+	}
+}
+
+// repeated: a header field that is interpreted, sent twice - a valid value
+// and an invalid one in either order, two different valid ones. Obligation
+// (1) only (and a complete response).
+func (g *generator) repeated() {
+	cal, card := calLayout(""), cardLayout("")
+	type rq struct {
+		target, method string
+		lp
+		name string
+		vals [][]string
+	}
+	depthPairs := [][]string{{"0", "2"}, {"2", "0"}, {"0", "1"}, {"infinity", "0"}, {"1", ""}, {"", "infinite"}, {"0", "0", "0"}}
+	overPairs := [][]string{{"T", "X"}, {"X", "T"}, {"T", "F"}, {"F", "T"}, {"F", ""}}
+	ctXMLPairs := [][]string{{"application/xml", "text/plain"}, {"text/plain", "application/xml"}, {"application/xml", "text/"}, {"text/", "text/xml"}, {"text/xml", "application/xml"}}
+	for _, q := range []rq{
+		{"webdav", "PROPFIND", lp{"dir", "/dir/"}, "Depth", depthPairs},
+		{"caldav", "PROPFIND", lp{"collection", cal.Coll}, "Depth", depthPairs},
+		{"carddav", "PROPFIND", lp{"home-set", card.Home}, "Depth", depthPairs},
+		{"principal", "PROPFIND", lp{"principal", "/u1/"}, "Depth", depthPairs},
+		{"webdav", "COPY", lp{"dir", "/dir/"}, "Depth", depthPairs},
+		{"webdav", "MOVE", lp{"file", "/file.txt"}, "Overwrite", overPairs},
+		{"webdav", "COPY", lp{"file", "/file.txt"}, "Overwrite", overPairs},
+		{"caldav", "MOVE", lp{"object", cal.Obj}, "Overwrite", overPairs},
+		{"webdav", "COPY", lp{"file", "/file.txt"}, "Destination", [][]string{{"/newdst", "%zz"}, {"%zz", "/newdst"}, {"/newdst", "/dir/newfile"}, {"/newdst", ""}}},
+		{"carddav", "COPY", lp{"object", card.Obj}, "Destination", [][]string{{card.Coll + "copied", "%zz"}, {"http://[::1", card.Coll + "copied"}}},
+		{"caldav", "REPORT", lp{"collection", cal.Coll}, "Content-Type", ctXMLPairs},
+		{"carddav", "REPORT", lp{"collection", card.Coll}, "Content-Type", ctXMLPairs},
+		{"webdav", "PROPPATCH", lp{"file", "/file.txt"}, "Content-Type", ctXMLPairs},
+		{"caldav", "PROPFIND", lp{"collection", cal.Coll}, "Content-Type", ctXMLPairs},
+		{"caldav", "MKCOL", lp{"new-collection", cal.NewColl}, "Content-Type", ctXMLPairs},
+		{"caldav", "PUT", lp{"missing-object", cal.MissingObj}, "Content-Type", [][]string{{"text/calendar", "text/plain"}, {"text/plain", "text/calendar"}, {"text/calendar", "text/"}, {"text/", "text/calendar"}, {"text/calendar", "text/vcard"}}},
+		{"carddav", "PUT", lp{"missing-object", card.MissingObj}, "Content-Type", [][]string{{"text/vcard", "text/plain"}, {"text/plain", "text/vcard"}, {"text/vcard", "text/"}, {"text/", "text/vcard"}, {"text/vcard", "text/calendar"}}},
+	} {
+		for _, vs := range q.vals {
+			q, vs := q, vs
+			g.emit(func() *Case {
+				cs := &Case{Fam: "repeated-header", Target: q.target, Method: q.method, Path: q.Path, Level: q.Level, Dup: map[string][]string{q.name: vs}}
+				cs.Body = defaultBody(q.target, q.method)
+				if q.name != "Content-Type" && len(cs.Body.Data) > 0 {
+					cs.CT = defaultCT(q.target, q.method)
+				}
+				if (q.method == "COPY" || q.method == "MOVE") && q.name != "Destination" {
+					cs.Dest = defaultDest(q.target, "")
+				}
+				g.c.Observe("repeated header", q.target+" "+q.method+" | "+q.name, 1)
+				return cs
+			})
 		}
 	}
 }
@@ -903,6 +973,59 @@ func (g *generator) sequence(xs []seedDoc) {
 							cs := &Case{Fam: "sequence", Target: en.target, Method: en.method, Path: en.Path, Level: en.Level,
 								CT: ctFor("xml", i+1), Body: b, Prev: a, Repeat: 3}
 							return cs
+						})
+					}
+				}
+			}
+		}
+	}
+	// The same for uploads: A is a PUT of a valid iCalendar / vCard object
+	// that fails on a transport path (or a broken XML request to the same
+	// handler), B a PUT whose body is unparseable by construction.
+	for ti, put := range []struct {
+		target, fam string
+		lp
+	}{{"caldav", "ical", lp{"missing-object", cal.MissingObj}}, {"carddav", "vcard", lp{"missing-object", card.MissingObj}}} {
+		var seeds []seedDoc
+		for _, sd := range textSeeds() {
+			if sd.Fam == put.fam {
+				seeds = append(seeds, sd)
+			}
+		}
+		for si, sd := range seeds {
+			tm := textMutants(sd)
+			var bs []Body
+			step := len(tm) / 6
+			if g.c.Thorough() {
+				step = len(tm) / 40
+			}
+			if step < 1 {
+				step = 1
+			}
+			for k := si % step; k < len(tm); k += step {
+				if tm[k].Text != "" {
+					bs = append(bs, tm[k])
+				}
+			}
+			bs = append(bs, Body{Mut: "empty"})
+			for ai, an := range anomalies {
+				for bi, b := range bs {
+					for ar := 0; ar < 2; ar++ {
+						if ar > 0 && !g.c.Thorough() && (ai+bi)%2 == 0 {
+							continue
+						}
+						put, sd, an, b, ar, i := put, sd, an, b, ar, ti+si+ai+bi
+						g.emit(func() *Case {
+							a := &Case{Fam: "sequence", Target: put.target, Method: "PUT", Path: put.Path, Level: put.Level,
+								CT: ctFor(put.fam, i), Body: validTextBody(sd)}
+							if ar == 1 {
+								// an XML request to the same handler
+								a.Method, a.CT = "PROPFIND", ctFor("xml", i)
+								a.Body = validXMLBody(other, false)
+							}
+							an.set(a)
+							return &Case{Fam: "sequence", Target: put.target, Method: "PUT", Path: put.Path, Level: put.Level,
+								CT: ctFor(put.fam, i+1), Body: b, Prev: a, Repeat: 3}
 						})
 					}
 				}
